@@ -124,7 +124,8 @@ func ok2xx(status int) bool { return status >= 200 && status <= 299 }
 // ---------------------------------------------------------------------------------------------
 // concurrent requests at one ingestion router
 
-const ridPrefix = "rid:"
+// longer than any tag key the generators can draw (at most 6 characters), so no random tag can look like an id
+const ridPrefix = "verif-request-id:"
 
 // ridOfSeries returns the request ids carried by the series of a flattened map.
 func ridsOf(m map[string]*ref.Series) (rids []string, untagged int) {
